@@ -60,4 +60,6 @@ PROPS = {
             "parts": [rp("inputs", "TestC17Load", (300, 2), (5000, 8)), rp("inputs", "TestC17Corrupt", (600, 2), (10000, 8)), rp("inputs", "TestC17Equals", (5000, 2), (100000, 8))]},
     "C18": {"level": "exploration", "assumptions": ["the harness wires the task runner exactly as app.appAction does (pipeline env as runner env, real FileOutputStore); a change to that closure in app/app.go is not seen", "real processes via cmd/vhelper; the environment of the test process stands for the prunner process"],
             "parts": [rp("procs", "TestC18", (40, 2), (1500, 8), helpers=["cmd/vhelper"])]},
+    "C19": {"level": "exploration", "assumptions": ["the harness wires the task runner as app.appAction does; real processes via cmd/vhelper", "task names are single path components (no '/' or NUL)"],
+            "parts": [rp("procs", "TestC19", (40, 2), (400, 8), helpers=["cmd/vhelper"])]},
 }
